@@ -35,7 +35,8 @@ class _FileStreamBase(object):
     def close(self):
         self._file.close()
 
-    def write_data(self, data):
+    def format_data(self, data):
+        """Return the text that write_data() writes for *data*."""
         # data to write on file
         file_data = to_str(data['data'])
 
@@ -50,6 +51,10 @@ class _FileStreamBase(object):
             file_data = prefix + file_data.rstrip('\n')
             file_data = file_data.replace('\n', '\n' + prefix)
             file_data += '\n'
+        return file_data
+
+    def write_data(self, data):
+        file_data = self.format_data(data)
 
         # writing into the file
         try:
@@ -102,7 +107,8 @@ class FileStream(_FileStreamBase):
         self._backup_count = int(backup_count)
 
     def __call__(self, data):
-        if self._should_rollover(data['data']):
+        # what counts is the text as it is written (with the time prefix)
+        if self._should_rollover(self.format_data(data)):
             self._do_rollover()
 
         self.write_data(data)
@@ -141,6 +147,9 @@ class FileStream(_FileStreamBase):
             self._file = self._open()
         if self._max_bytes > 0:                   # are we rolling over?
             self._file.seek(0, 2)  # due to non-posix-compliant Windows feature
+            if isinstance(raw_data, str):
+                raw_data = raw_data.encode(self._file.encoding or 'utf-8',
+                                           'replace')
             if self._file.tell() + len(raw_data) >= self._max_bytes:
                 return 1
         return 0
